@@ -59,6 +59,10 @@ def run(m):
         for l in r.stdout.splitlines():
             if l.startswith("VIOLATION property="):
                 pid = l.split("property=")[1].split()[0]
+                base = l.split("replay=")[-1].split("/")[-1]
+                import re as _re
+                if _re.search(r"-(u\d+|load)\.json$", base):
+                    continue  # an undecided obligation, listed separately
                 fired[pid] = fired.get(pid, 0) + 1
             if l.startswith("UNDECIDED property="):
                 und.add(l.split("property=")[1].split()[0])
